@@ -46,7 +46,7 @@ def classify(rec):
         if p.get("hold_ms", 0) > period_ms:
             return grace_key()
         return "tunnel-%s-closed-by-force-although-no-grace-period-elapsed" % p["mode"]
-    if p["mode"] in ("uphttp", "uphttps") and p.get("reply_variant", 0) in (5, 6) and \
+    if p["mode"] in ("uphttp", "uphttps") and p.get("reply_variant", 0) in (5, 6, 12, 13, 14, 16) and \
             (rec.get("overread_by_reply_reader") or rec.get("timeout") or not rec.get("reply")):
         return KEY_2XX_BODY
     if p.get("read_timeout_ms") and rec["dirs"][0]["eof_early"] and rec["dirs"][0]["first_diff"] == -1:
